@@ -135,6 +135,7 @@ func checkC18(p *Prog, r *Report) {
 	c15Cow(p, r, "C18")
 	c18Belief(p, r)
 	c18Publication(p, r)
+	c18SharedMaps(p, r)
 }
 
 func c18Types(p *Prog, r *Report) {
@@ -438,6 +439,152 @@ func lockAcquirers(p *Prog, la *lockAnalysis, in ssa.Instruction, lock *types.Va
 // only when it is complete: the constructing function writes none of its fields after the
 // call that publishes it.  Another goroutine that finds the object in the registry would read
 // the field while it is being written (or before: a nil field).
+// c18SharedMaps: plain Go maps held in fields of the long-lived shared objects.
+func c18SharedMaps(p *Prog, r *Report) {
+	const rule = "C18.shared-maps"
+	r.Rule(rule, "an entry of a plain map kept in a field of a shared object is written (or deleted) only while a mutex of that object is held exclusively, or while the object is being built; a map that other goroutines read without a lock is never written after start-up")
+	la := lockAnalyse(p)
+	var bad []string
+	n := 0
+	for _, fn := range p.ScopedFuncs("proxy", "proxycore", "astra") {
+		eachInstr(fn, func(in ssa.Instruction) {
+			var m ssa.Value
+			switch x := in.(type) {
+			case *ssa.MapUpdate:
+				m = x.Map
+			case *ssa.Call:
+				if b, ok := x.Call.Value.(*ssa.Builtin); ok && b.Name() == "delete" {
+					m = x.Call.Args[0]
+				}
+			}
+			if m == nil {
+				return
+			}
+			for _, o := range origins(m) {
+				f, base := loadedField(o)
+				if f == nil || base == nil {
+					continue
+				}
+				owner := namedOf(base.Type())
+				if owner == nil || owner.Obj().Pkg() == nil || !strings.HasPrefix(owner.Obj().Pkg().Path(), modPath) {
+					continue
+				}
+				n++
+				held := false
+				for lk, mode := range la.mustAt[in] {
+					if mode == "W" && fieldOwnedBy(lk, owner) {
+						held = true
+					}
+				}
+				if held || prePublication(p, fn, owner) {
+					continue
+				}
+				// an object of a type that is never shared between goroutines (a parser, a local helper)
+				if !sharedOwner(p, owner) {
+					continue
+				}
+				// a field confined to the one goroutine that serves its own object: every access (outside
+				// construction) is reachable only from goroutine entry points that are methods of the
+				// owner itself (client.Receive for the fields of that client)
+				if confinedToOwnGoroutine(p, f, owner) {
+					continue
+				}
+				bad = append(bad, fmt.Sprintf("%s: %s writes the map %s.%s without holding a mutex of %s, after the object is in use: goroutines that read the map race with this write (and the runtime aborts on a concurrent map read and write)", p.Pos(in.Pos()), fn.Name(), owner.Obj().Name(), f.Name(), owner.Obj().Name()))
+			}
+		})
+	}
+	r.count("map_field_writes", n)
+	r.check(len(bad) == 0, rule, "map fields of shared objects", "", fmt.Sprintf("%d map writes through fields inspected", n), strings.Join(dedupe(bad), " || "))
+}
+
+// confinedToOwnGoroutine: all accesses to owner.f after construction are reachable only through
+// goroutine entry points whose receiver is the owner type (one goroutine per object: client.Receive
+// for the fields of that client); the generic reader/writer loops of a connection reach them only
+// through such an entry point.
+func confinedToOwnGoroutine(p *Prog, f *types.Var, owner *types.Named) bool {
+	var own, other []*ssa.Function
+	for _, root := range c17Roots(p) {
+		if recvNamed(root) == owner {
+			own = append(own, root)
+		} else {
+			other = append(other, root)
+		}
+	}
+	if len(own) == 0 {
+		return false
+	}
+	isOwn := map[*ssa.Function]bool{}
+	for _, o := range own {
+		isOwn[o] = true
+	}
+	reach := func(roots []*ssa.Function, cut map[*ssa.Function]bool) map[*ssa.Function]bool {
+		seen := map[*ssa.Function]bool{}
+		work := append([]*ssa.Function(nil), roots...)
+		for len(work) > 0 {
+			fn := work[len(work)-1]
+			work = work[:len(work)-1]
+			if fn == nil || seen[fn] || cut[fn] {
+				continue
+			}
+			seen[fn] = true
+			if n := p.CG.Nodes[fn]; n != nil {
+				for _, e := range n.Out {
+					work = append(work, e.Callee.Func)
+				}
+			}
+			work = append(work, fn.AnonFuncs...)
+		}
+		return seen
+	}
+	viaOwn := reach(own, nil)
+	viaOther := reach(other, isOwn)
+	n := 0
+	for _, acc := range fieldAccesses(p.ScopedFuncs("proxy", "proxycore", "astra"), f) {
+		if a, ok := acc.Base.(*ssa.Alloc); ok && a.Parent() == acc.Fn {
+			continue // the object is being built
+		}
+		n++
+		if !viaOwn[acc.Fn] || viaOther[acc.Fn] {
+			return false
+		}
+	}
+	return n > 0
+}
+
+// fieldOwnedBy: lk is a field of the struct type owner.
+func fieldOwnedBy(lk *types.Var, owner *types.Named) bool {
+	st, ok := owner.Underlying().(*types.Struct)
+	if !ok {
+		return false
+	}
+	for i := 0; i < st.NumFields(); i++ {
+		if st.Field(i) == lk {
+			return true
+		}
+	}
+	return false
+}
+
+// sharedOwner: objects of this type are reachable from several goroutines: the type has a mutex,
+// a sync.Map or an atomic field of its own (it declares itself shared), or goroutines are started
+// on its methods.
+func sharedOwner(p *Prog, owner *types.Named) bool {
+	st, ok := owner.Underlying().(*types.Struct)
+	if !ok {
+		return false
+	}
+	for i := 0; i < st.NumFields(); i++ {
+		t := st.Field(i).Type()
+		if pt, ok := t.(*types.Pointer); ok {
+			t = pt.Elem()
+		}
+		if isMutexType(t) || isConcurrencySafeType(t) {
+			return true
+		}
+	}
+	return false
+}
+
 func c18Publication(p *Prog, r *Report) {
 	const rule = "C18.publication"
 	r.Rule(rule, "a freshly built object is stored into a shared registry (map field, sync.Map, channel) only after its last field was written by the function that builds it: no field store follows the publishing call")
